@@ -725,6 +725,8 @@ class C09Distance(Monitor):
             return [("nbcfar", s["fdf"], 2, False)]
         out = []
         for f in s["dfilters"]:
+            if f["k"] == "userpure":
+                continue
             o = np.inf if f.get("ord") == "inf" else f.get("ord")
             if f["k"] == "far":
                 out.append(("far", f["d"], o, True))
